@@ -33,17 +33,19 @@ EXPECTED_PROBES = ['len_125', 'len_126', 'len_65535', 'len_65536',
                    'compressed_frame', 'compress_false', 'bad_arg_refused',
                    'refused_after_close', 'sent_in_closing', 'close_long_reason',
                    'adversarial_mask', 'transient_write_error',
-                   'after_earlier_connection']
+                   'after_earlier_connection', 'calls_from_several_threads']
 
 BOUNDARY = [0, 1, 125, 126, 127, 65535, 65536, 65537]
 BAD = ['text_bytes', 'binary_str', 'ping_str', 'pong_str', 'ping_long',
        'pong_long', 'json_unserialisable', 'json_both', 'text_none',
-       'binary_none', 'text_int', 'binary_bytearray']
+       'binary_none', 'text_int', 'binary_bytearray', 'text_lone_surrogate',
+       'text_surrogate_in_json']
 
 
 def plan(tier):
     return [('seeded', 10000 if tier == 'quick' else 150000),
-            ('boundary', 64 if tier == 'quick' else 640)]
+            ('boundary', 64 if tier == 'quick' else 640),
+            ('threaded', 600 if tier == 'quick' else 30000)]
 
 
 def _text_of_len(rng, nbytes):
@@ -128,6 +130,14 @@ def _close_call(rng):
 
 
 def make_case(family, i, rng, tier):
+    if family == 'threaded':
+        # calls made from two or three threads at once with compression
+        # negotiated: every accepted call is one frame the peer can restore
+        # (ThreadSim; scenarios and wire oracle are C11's)
+        from . import C06
+        c = C06._threaded_case(i, rng)
+        c['mode'] = 'c03_threaded'
+        return c
     negotiated = rng.random() < 0.4
     case = {'negotiated': negotiated,
             'cnct': rng.random() < 0.5,
@@ -273,6 +283,15 @@ def _reference_payload(op):
 
 
 def execute(case):
+    if case.get('mode') == 'c03_threaded':
+        from . import C11
+        c = dict(case)
+        c.pop('mode')
+        r = C11.execute(c)
+        r.violations = [('C03/threaded/' + k.split('/', 1)[1], m)
+                        for k, m in r.violations]
+        r.stats['probe:calls_from_several_threads'] += 1
+        return r
     res = Result()
     sc = build(case)
     tr = netsim.run(sc)
@@ -339,7 +358,8 @@ def execute(case):
                 res.bad('C03/%s/accepted' % tag,
                         'call with unsendable arguments returned normally or '
                         'wrote %d bytes (state %s)' % (c.wrote, state))
-            elif c.exc not in ('TypeError', 'ValueError'):
+            elif c.exc not in ('TypeError', 'ValueError',
+                               'UnicodeEncodeError'):   # a ValueError
                 if state in ('ready', 'closing', 'connected'):
                     res.bad('C03/%s/wrong_exception' % tag,
                             '%s in state %s' % (c.exc, state))
